@@ -1135,6 +1135,12 @@ class FnTranslator:
 
     def construct_into(self, lv, t, e):
         e = self.strip(e)
+        e0 = e
+        while e0['kind'] == 'ImplicitCastExpr' and e0.get('castKind') == 'NoOp':
+            e0 = self.strip(self.inner(e0)[0])
+        if e0['kind'] in ('CallExpr', 'CXXMemberCallExpr') and t[0] == 'struct' and self.T(e0) == t:
+            self.rule('aggregate local initialised from a call result (guaranteed elision): assignment of the returned value')
+            return [('assign', lv, self.expr(e0))]
         if e['kind'] in ('CXXConstructExpr', 'CXXTemporaryObjectExpr'):
             args = self.inner(e)
             if t[0] == 'struct':
